@@ -243,7 +243,7 @@ def _obligations():
                    _em.o12, floor=4),
         Obligation("O4.4", "particle order: read_in returns the file block as it stands; both conversions keep the row order", o44, floor=20),
         Obligation("O4.7", "library calls on the STOPGAP conversion paths exist in the installed pandas", o47, floor=5),
-        Obligation("O4.6a", "STAR writer on the via-file path: cell text reads back to the value (shared with C02)", _star.o23, floor=30),
+        Obligation("O4.6a", "STAR writer on the via-file path: header and row text read back to the table (shared with C02)", lambda ctx: (_star.o23(ctx), _star.o25(ctx)), floor=200),
         Obligation("O4.6b", "STAR reader on the via-file path: numeric conversion and block tables (shared with C02)", _star.o24, floor=5),
     ]
 
